@@ -21,13 +21,19 @@ import threading
 
 from pv.core import InfraError
 
-HANDOVER_TIMEOUT = 120.0
+HANDOVER_TIMEOUT = 30.0
 MSG_ADJUST, MSG_DATA, MSG_EXT, MSG_EOF, MSG_CLOSE = 93, 94, 95, 96, 97
 
 
 def _ssh_exception():
     from paramiko.ssh_exception import SSHException
     return SSHException
+
+
+class RigDeadlock(Exception):
+    """the real code cannot make progress under the schedule (a thread parked while holding the channel lock and
+    another operation needing it, or a logical thread that never reaches its next park point): a FINDING, reported
+    with the schedule by the harness — never an infrastructure error"""
 
 
 class Abort(BaseException):
@@ -38,6 +44,20 @@ def recipient(m):
     """the channel id a channel message is addressed to (first uint32 after the type byte)"""
     from paramiko.message import Message
     return Message(m.asbytes()[1:]).get_int()
+
+
+def payload(m):
+    """the data bytes of a CHANNEL_DATA / EXTENDED_DATA message (b"" for the others)"""
+    from paramiko.message import Message
+    data = m.asbytes()
+    msg = Message(data[1:])
+    msg.get_int()
+    if data[0] == MSG_DATA:
+        return msg.get_binary()
+    if data[0] == MSG_EXT:
+        msg.get_int()
+        return msg.get_binary()
+    return b""
 
 
 def decode(m):
@@ -197,11 +217,17 @@ class FakeTransport:
         self.rig = rig
         self.active = True
         self.server_object = None
+        from paramiko.common import DEFAULT_WINDOW_SIZE
         self.default_max_packet_size = DEFAULT_MAX_PACKET_SIZE
+        self.default_window_size = DEFAULT_WINDOW_SIZE
         self._T = Transport
 
+    # the REAL sanitising helpers of Transport (whichever of them the channel code calls)
     def _sanitize_packet_size(self, n):
         return self._T._sanitize_packet_size(self, n)
+
+    def _sanitize_window_size(self, n):
+        return self._T._sanitize_window_size(self, n)
 
     def _send_user_message(self, m):
         tok = decode(m)
@@ -210,15 +236,27 @@ class FakeTransport:
             # every channel message must name the PEER's id for the channel, never our own
             self.rig.misaddressed = (tok, to)
         lt = self.rig.current()
-        if lt is not None:
+        if lt is not None and self.rig.chan.lock.locked():
+            # only one logical thread runs at a time, so a held channel lock here is held by THIS thread:
+            # _send_user_message (which blocks for the whole of a re-key) entered inside a `self.lock` region.
+            # Every peer-message handler that needs the lock (_feed_extended, _window_adjust, _handle_eof,
+            # _handle_close, …) is blocked for as long.  Do not park (that would deadlock the scheduler): record.
+            if self.rig.send_under_lock is None:
+                self.rig.send_under_lock = (tok, lt.local, lt.op)
+        elif lt is not None:
             if lt.park("hold", tok) == "fail":
                 # the transport gives up on this packet (e.g. key re-negotiation timed out) but stays alive
                 raise _ssh_exception()("Key-exchange timed out waiting for key negotiation")
         self.rig.wire.append(tok)
         self.rig.wire_by.append(lt.local if lt is not None else -1)
+        self.rig.wire_data.append(payload(m))
 
     def _unlink_channel(self, chanid):
-        self.rig.linked = False
+        # Transport._channels is keyed by the LOCAL id
+        if chanid == self.rig.chan.chanid:
+            self.rig.linked = False
+        elif self.rig.unlinked_other is None:
+            self.rig.unlinked_other = chanid
 
     def get_log_channel(self):
         return "paramiko.verif"
@@ -246,8 +284,8 @@ class Pool:
         try:
             idx = self.events.get(timeout=HANDOVER_TIMEOUT)
         except queue.Empty:
-            raise InfraError("logical thread %d did not reach its next park point (blocked inside the real code)"
-                             % lt.idx)
+            raise RigDeadlock("logical thread %d did not reach its next park point within %.0f s: it is blocked "
+                              "inside the real code" % (lt.idx, HANDOVER_TIMEOUT))
         if idx != lt.idx:
             raise InfraError("logical thread %d parked while %d was scheduled" % (idx, lt.idx))
 
@@ -266,6 +304,9 @@ class Rig:
         self.linked = True
         self.gates = None
         self.remote_id = remote_id if remote_id is not None else chanid + 1006   # never equal to our own id
+        self.wire_data = []
+        self.send_under_lock = None    # (token, thread, op): _send_user_message entered while holding chan.lock
+        self.unlinked_other = None     # id passed to transport._unlink_channel that is not our local id
         self.misaddressed = None       # (token, id) of the first message not addressed to the peer's id
         self.nonblocking_wait = None   # (thread, timeout) of the first out_buffer_cv.wait entered in non-blocking mode
         self.nthr = nthr
@@ -361,6 +402,11 @@ class Rig:
         c = self.chan
         M = self.Message
         k = w[0]
+        if c.lock.locked() and k not in ("emit", "efail", "gate", "mode"):
+            # all logical threads are parked, yet the channel lock is held: by one of them.  Anything that needs
+            # the lock would block for ever under this schedule.
+            holders = [(t, lt.state, lt.info) for t, lt in enumerate(self.threads) if lt.state != "idle"]
+            raise RigDeadlock("Channel.lock is held by a parked thread %r; %r cannot run" % (holders, line))
         if k == "send":
             t, n, e = int(w[1]), int(w[2]), w[3] == "1"
             data = b"x" * n
@@ -478,6 +524,16 @@ class Rig:
             return ("message-addressed-to-wrong-channel-id",
                     "%s addressed to channel %d; the peer's id for this channel is %d (ours is %d)"
                     % (self.misaddressed[0], self.misaddressed[1], self.remote_id, self.chan.chanid))
+        if self.send_under_lock is not None:
+            return ("handler-blocked-by-a-sender-holding-the-channel-lock",
+                    "thread %d (%s) called transport._send_user_message(%s) while holding Channel.lock: the write blocks "
+                    "for the whole of a key re-negotiation and every peer-message handler that needs the lock "
+                    "(_feed_extended, _window_adjust, _handle_eof, _handle_close) is stuck behind it"
+                    % (self.send_under_lock[1], self.send_under_lock[2], self.send_under_lock[0]))
+        if self.unlinked_other is not None:
+            return ("unlinked-wrong-channel-id",
+                    "transport._unlink_channel(%d) — the channel map is keyed by the LOCAL id %d (the peer's id is %d)"
+                    % (self.unlinked_other, self.chan.chanid, self.remote_id))
         if self.nonblocking_wait is not None:
             return ("nonblocking-send-went-to-sleep",
                     "thread %d entered out_buffer_cv.wait(%r) in non-blocking mode instead of raising socket.timeout"
